@@ -1,6 +1,6 @@
 """C12 (linear scale), C13 (linear ticks), C14 (nice: linear and time)."""
 import json, math, sys
-from common import Report, build_and_audit, drive, fields, rng_for, leanchecker, REPO, fr
+from common import Report, build_and_audit, drive, fields, rng_for, leanchecker, REPO, fr, time_limit
 
 sys.path.insert(0, REPO)
 ASSUME = ["modelled, not verified: IEEE-754 double arithmetic, math.log/floor/ceil/pow, str.format('.nf') — the model computes in exact rationals; relations carry explicit tolerances (1e-6 of a tick step for tick values, condition-number-scaled 1e-15 for scale values)",
@@ -157,6 +157,7 @@ def body_c13(tier, seed, rep, only_prop=False, scale=1):
         m = pick_m(rng)
         meta = {"kind": "lticks", "a": a, "b": b, "m": m}
         try:
+          with time_limit(10):
             s = LinearScale().domain([a, b])
             tk = list(s.ticks(m)) if m is not None else list(s.ticks())
             fmt = s.tickFormat(m) if m is not None else s.tickFormat()
@@ -191,9 +192,10 @@ def body_c14(tier, seed, rep, only_prop=False, scale=1):
         m = pick_m(rng)
         meta = {"kind": "lnice", "a": a, "b": b, "m": m}
         try:
-            s = LinearScale().domain([a, b])
-            s.nice(m) if m is not None else s.nice()
-            d = s.domain()
+            with time_limit(10):
+                s = LinearScale().domain([a, b])
+                s.nice(m) if m is not None else s.nice()
+                d = s.domain()
         except Exception as e:
             rep.prop_fail.append(("nice raised %s: %s" % (type(e).__name__, e), {"case": meta})); continue
         lines.append("lnice|%s|%s|%s|%s|%s" % (fr(a), fr(b), fr(10 if m is None else m), fr(d[0]), fr(d[1]))); metas.append(meta)
@@ -206,9 +208,10 @@ def body_c14(tier, seed, rep, only_prop=False, scale=1):
         m = rng.choice([None, None, 10, 2, 3, 5, 7, 12, 20, 50])
         meta = {"kind": "tnice", "d0": d0, "d1": d1, "m": m}
         try:
-            s = TimeScale().domain([T.to_dt(d0), T.to_dt(d1)])
-            s.nice(m) if m is not None else s.nice()
-            d = s.domain()
+            with time_limit(10):
+                s = TimeScale().domain([T.to_dt(d0), T.to_dt(d1)])
+                s.nice(m) if m is not None else s.nice()
+                d = s.domain()
         except Exception as e:
             rep.prop_fail.append(("time nice raised %s: %s" % (type(e).__name__, e), {"case": meta})); continue
         lines.append("tnice|%d|%d|%s|%s|%s" % (d0, d1, fr(10 if m is None else m), fr(T.to_ms(d[0])), fr(T.to_ms(d[1])))); metas.append(meta)
